@@ -180,7 +180,7 @@ fn check(p: &Pos, n: i128, w: u8, ctx: &mut Ctx) -> CaseResult {
             ctx.class("expect:exact");
             // the re-encoding, read by the strict reader, holds the same integer at the same place
             let read = read_strict(&out).map_err(|e| format!("{}: re-encoding not strict CBOR ({:?}): {}", p.name, e, hex(&out)))?;
-            ensure!(read == item, "{}: integer {} ({}) decoded and re-encoded as {} — expected {}", p.name, n, hex(&bytes), crate::cbor::diag(&read), crate::cbor::diag(&item));
+            ensure!(eq_mod_map_order(&read, &item), "{}: integer {} ({}) decoded and re-encoded as {} — expected {}", p.name, n, hex(&bytes), crate::cbor::diag(&read), crate::cbor::diag(&item));
             Ok(())
         }
         (true, Ok(Err(e))) => Err(format!("{}: value holding {} failed to re-encode: {:?}", p.name, n, e)),
